@@ -12,6 +12,7 @@ API.
 import gzip
 import os
 import pathlib
+import zlib
 
 import neuroglancer_scripts.accessor
 from neuroglancer_scripts.accessor import _CHUNK_PATTERN_FLAT, DataAccessError
@@ -83,7 +84,9 @@ class FileAccessor(neuroglancer_scripts.accessor.Accessor):
                                       f"{self.base_path}")
             with f:
                 return f.read()
-        except OSError as exc:
+        except (OSError, EOFError, zlib.error) as exc:
+            # EOFError and zlib.error are raised for truncated or corrupted
+            # gzip files
             raise DataAccessError(
                 f"Error fetching {file_path}: {exc}") from exc
 
@@ -130,7 +133,7 @@ class FileAccessor(neuroglancer_scripts.accessor.Accessor):
                 )
             with f:
                 return f.read()
-        except OSError as exc:
+        except (OSError, EOFError, zlib.error) as exc:
             raise DataAccessError(
                 "Error accessing chunk "
                 f"{self._flat_chunk_basename(key, chunk_coords)} in "
